@@ -11,3 +11,4 @@ open PgmVerif
 #print axioms PgmVerif.CI_weak_union
 #print axioms PgmVerif.CI_contraction
 #print axioms PgmVerif.C18_ci_scale_invariant
+#print axioms PgmVerif.C18_ci_unnormalised
